@@ -354,6 +354,9 @@ func SiteFunc(site string) string {
 type Scenario struct {
 	Name     string
 	Property string
+	// NoBubble: the body runs on the calling goroutine with the real clock and no scheduler (used by
+	// re-executions of direct, non-simulated checks that need a real-time watchdog).
+	NoBubble bool
 	// Body runs inside the bubble on the scheduler goroutine: it sets the run up (spawning tasks),
 	// calls r.Drive as often as it wants, and evaluates oracles.
 	Body func(r *Run)
@@ -383,6 +386,28 @@ func Execute(t *testing.T, spec RunSpec) (res RunResult) {
 		return
 	}
 	var r *Run
+	if sc.NoBubble {
+		var tape *Tape
+		if spec.Tape != nil {
+			tape = NewReplayTape(spec.Tape)
+		} else {
+			tape = NewTape(Mix(spec.Seed, spec.Property+"/"+spec.Scenario, spec.Index))
+		}
+		r = &Run{Spec: spec, T: tape, Start: time.Now(), hash: 14695981039346656037, keepTrace: spec.Trace,
+			vioKeys: map[string]bool{}, Faults: map[string]int{}, Probes: map[string]int{}, Config: map[string]string{}, PanicProperty: spec.Property}
+		r.S = simrt.New(tape)
+		func() {
+			defer func() {
+				if p := recover(); p != nil {
+					res.BubblePanic = fmt.Sprint(p)
+				}
+			}()
+			sc.Body(r)
+		}()
+		res.Hash, res.Violations, res.Faults, res.Probes, res.Config = r.hash, r.violations, r.Faults, r.Probes, r.Config
+		res.Nontrivial, res.Sample, res.Tape, res.Trace, res.Evals = r.Nontrivial, r.Sample, r.T.Recorded(), r.trace, r.Evals
+		return
+	}
 	func() {
 		defer func() {
 			if p := recover(); p != nil {
